@@ -50,10 +50,11 @@ func c07ReaderWriter(c *Ctx) {
 			switch calleeName(call) {
 			case "encoding/json.Unmarshal":
 				src := desc(call.Call.Args[0])
-				if !strings.HasSuffix(src, ".Payload.Content") && !strings.HasSuffix(src, "param:content") {
+				_, srcIsParam := call.Call.Args[0].(*ssa.Parameter)
+				if !strings.HasSuffix(src, ".Payload.Content") && !(srcIsParam && fn.Pkg != nil && fn.Pkg.Pkg.Path() == modPath+"/signer") {
 					continue
 				}
-				if strings.HasSuffix(src, "param:content") {
+				if srcIsParam {
 					// helper receiving the payload content: the caller passes Payload.Content
 					okCaller := false
 					for _, f2 := range w.Funcs {
@@ -500,7 +501,7 @@ func c07Payload(c *Ctx) {
 						for _, rr := range *fa.Referrers() {
 							if st, ok := rr.(*ssa.Store); ok && st.Addr == fa {
 								ta = desc(st.Val)
-								if ta == "call:"+fnName(san)+"(param:desc)" {
+								if ta == "call:"+fnName(san)+"("+paramWhere(fn, isNamed("ocispec.Descriptor"))+")" {
 									ok2 = true
 								}
 							}
@@ -557,14 +558,15 @@ func c07Payload(c *Ctx) {
 					}
 					d := desc(st.Val)
 					base := desc(fa.X)
-					okV := d == "call:(time.Time).Add("+base+".SigningTime,param:opts.ExpiryDuration)"
+					ed := paramWhere(fn, hasField("ExpiryDuration")) + ".ExpiryDuration"
+					okV := d == "call:(time.Time).Add("+base+".SigningTime,"+ed+")"
 					g := fi.GuardsOf(st)
-					okG := labelHas(g, "NE(param:opts.ExpiryDuration,const:0)")
+					okG := labelHas(g, "NE("+ed+",const:0)")
 					c.Evals++
 					c.Check(okV && okG, "payload/expiry", "expiry = SigningTime.Add(ExpiryDuration) of the same request, set only when the duration is non-zero", w.InstrPos(st), fmt.Sprintf("value %s; guards %s", d, summarizeLabels(g, 4)))
 				case "ExpiryDurationInSeconds":
 					d := desc(st.Val)
-					c.Check(d == "(param:opts.ExpiryDuration / const:1000000000)", "payload/expiry-plugin", "the plugin request carries ExpiryDuration / time.Second", w.InstrPos(st), "value "+d)
+					c.Check(d == "("+paramWhere(fn, hasField("ExpiryDuration"))+".ExpiryDuration / const:1000000000)", "payload/expiry-plugin", "the plugin request carries ExpiryDuration / time.Second", w.InstrPos(st), "value "+d)
 				case "SigningScheme":
 					if namedOf(fa.X.Type()) == "core/signature.SignRequest" {
 						c.Check(desc(st.Val) == `const:"notary.x509"`, "payload/signing-scheme", "the local signer signs under scheme notary.x509", w.InstrPos(st), "value "+desc(st.Val))
@@ -689,7 +691,9 @@ func c07BlobDescriptor(c *Ctx) {
 					}
 				}
 			}
-			okGen := stored["MediaType"] == "free:contentMediaType" && strings.HasPrefix(stored["Digest"], "call:invoke:digest.Digester.Digest(") && strings.HasPrefix(stored["Size"], "call:io.Copy(") && strings.Contains(stored["Size"], "free:reader")
+			mtFV := freeVarOfParam(builder, cl, func(t types.Type) bool { b, ok := t.Underlying().(*types.Basic); return ok && b.Kind() == types.String })
+			rdFV := freeVarOfParam(builder, cl, func(t types.Type) bool { return t.String() == "io.Reader" })
+			okGen := stored["MediaType"] == mtFV && strings.HasPrefix(stored["Digest"], "call:invoke:digest.Digester.Digest(") && strings.HasPrefix(stored["Size"], "call:io.Copy(") && strings.Contains(stored["Size"], rdFV)
 			c.Check(okGen, "blob-descriptor/generator-body", "the generated descriptor is {MediaType: the given content media type, Digest: digest of the bytes read with the requested algorithm, Size: number of bytes read}", w.FnPos(cl), fmt.Sprintf("fields: %v", stored))
 			// the digester comes from the algorithm argument
 			okAlg := false
@@ -701,4 +705,32 @@ func c07BlobDescriptor(c *Ctx) {
 			c.Check(okAlg, "blob-descriptor/generator-algorithm", "the digester is created from the algorithm the generator was called with", w.FnPos(cl), "the digest algorithm argument is not used")
 		}
 	}
+}
+
+// freeVarOfParam returns "free:<name>" of the closure's free variable that is bound to the
+// enclosing function's parameter (or its spill cell) whose type satisfies pred.
+func freeVarOfParam(outer, cl *ssa.Function, pred func(types.Type) bool) string {
+	for _, b := range outer.Blocks {
+		for _, in := range b.Instrs {
+			mc, ok := in.(*ssa.MakeClosure)
+			if !ok || mc.Fn != ssa.Value(cl) {
+				continue
+			}
+			for i, bd := range mc.Bindings {
+				var p *ssa.Parameter
+				switch x := bd.(type) {
+				case *ssa.Parameter:
+					p = x
+				case *ssa.Alloc:
+					if sv := onlyDirectStore(x); sv != nil {
+						p, _ = sv.(*ssa.Parameter)
+					}
+				}
+				if p != nil && pred(p.Type()) {
+					return "free:" + cl.FreeVars[i].Name()
+				}
+			}
+		}
+	}
+	return "free:?"
 }
